@@ -9,10 +9,24 @@ from harness.gen.histories import Gen, VERSIONS
 from harness.impl import gwrun
 
 
+SPELLINGS = {"1.4": ["1.4.0", "1.4.7"], "1.5": ["1.5.0", "1.5.9", "1.9"], "2.0": ["2.0.0", "2.0.1"],
+             "2.1": ["2.1.0", "2.1.9"], "2.2": ["2.2.0", "2.3", "3.0", "2.10"]}
+
+
+def spell(rng, cfg, rate=0.25):
+    """With probability `rate` the gateway is configured with another spelling of a version that selects the same
+    constants (get_const floor rule, C18): the model is configured by the selected tables, the implementation gets
+    the spelling."""
+    if rng.random() < rate:
+        cfg["spell"] = rng.choice(SPELLINGS[cfg["ver"]])
+    return cfg
+
+
 def make_cfg(rng, versions=None, flavours=("sync", "async"), mqtt_rate=0.15):
     ver = rng.choice(versions or VERSIONS)
-    return {"ver": ver, "flavour": rng.choice(flavours), "callback": rng.random() < 0.85,
-            "cb_raises": rng.random() < 0.2, "mqtt": rng.random() < mqtt_rate}
+    cfg = {"ver": ver, "flavour": rng.choice(flavours), "callback": rng.random() < 0.85,
+           "cb_raises": rng.random() < 0.2, "mqtt": rng.random() < mqtt_rate}
+    return spell(rng, cfg)
 
 
 def gen_cases(ctx, tag, n, length=(10, 40), versions=None, flavours=("sync", "async"), mqtt_rate=0.15, corpus=()):
@@ -57,6 +71,14 @@ def impl_case(case):
 
     for o in case["ops"]:
         o = tuple(o)
+        if o[0] == "save_fail_during":
+            # a periodic save attempt that fails in the serialiser because the inner op arrives: the monitors
+            # (and the model) see the inner op alone
+            im.nested = run_op
+            start = len(im.log)
+            outs.append(im.op(o))
+            im.nested = None
+            continue
         if o[0] == "save_during":
             # a periodic save during which (after the nodes were serialised, before the new file is
             # renamed into place) another op is handled.  The monitors see the linearisation the
@@ -86,6 +108,10 @@ def impl_case(case):
         m.end(im, trk)
     viol = [(m.name, k, w) for m in mons for (k, w) in m.violations]
     stats = {}
+    if im.failed_saves:
+        stats["harness:periodic-saves-failed-in-the-serialiser"] = im.failed_saves
+    if im.unfailed_saves:
+        stats["harness:hooked-saves-that-did-not-fail"] = im.unfailed_saves
     for m in mons:
         for k, v in m.stats.items():
             stats[f"{m.name}:{k}"] = stats.get(f"{m.name}:{k}", 0) + v
@@ -93,6 +119,12 @@ def impl_case(case):
 
 
 def impl_chunk(chunk):
+    """Results of impl_case for every case of the chunk."""
+    return impl_chunk_cov(chunk)[0]
+
+
+def impl_chunk_cov(chunk):
+    """(results, {file: executed lines}) - with statement coverage of mysensors/*.py measured."""
     cov = None
     if os.environ.get("VERIF_TIE_COVERAGE", "1") == "1":
         try:
@@ -159,6 +191,8 @@ def model_lines(case):
         o = tuple(o)
         if o[0] == "save_during":     # the model runs the linearisation: save tick, then the inner op
             lines += ["save", gwrun.op_line(tuple(o[1]))]
+        elif o[0] == "save_fail_during":   # the failed save has no effect: the inner op alone
+            lines.append(gwrun.op_line(tuple(o[1])))
         else:
             lines.append(gwrun.op_line(o))
     return lines
@@ -190,7 +224,7 @@ def run_all(ctx, cases):
     with ProcessPoolExecutor(jobs) as ex:
         impl = []
         executed = {}
-        for part, lines in ex.map(impl_chunk, chunks(cases, jobs * 2)):
+        for part, lines in ex.map(impl_chunk_cov, chunks(cases, jobs * 2)):
             impl.extend(part)
             for f, ls in lines.items():
                 executed.setdefault(f, set()).update(ls)
